@@ -206,10 +206,29 @@ def fmt_pair_indices(ctx):
     pushes = [n for n in T.nodes(b["tree"], "mcall") if n["name"] == "push"]
     top = _top_stmts(tr["body"])
     item = tr["item"]
+    if tr["form"] == "scan":
+        # scan emits one value per marker: the closure's value is Some((position, *pair index)) unconditionally
+        pair_id = item["pats"][1]["id"] if item.get("p") == "tuple" and len(item["pats"]) == 2 and item["pats"][1]["p"] == "bind" else None
+        last = top[-1] if top else {}
+        okv = False
+        if last.get("k") == "call" and (T.cname(last) or "").endswith("::Some") and pair_id is not None:
+            v = T.peel(last["args"][0])
+            if T.local_of(v) is not None:
+                for s_ in T.nodes(tr["body"], "let"):
+                    if s_["pat"].get("p") == "bind" and s_["pat"]["id"] == T.local_of(v) and s_.get("init") is not None:
+                        v = T.peel(s_["init"])
+            okv = v.get("k") == "tuple" and len(v["es"]) == 2 and T.local_of(T.peel_ref(v["es"][1])) == pair_id
+        if pushes or not okv or any(x.get("k") == "ret" for x in T.nodes(tr["body"])):
+            return False, "get_removed_pos does not emit exactly one (position, *pair index) per marker"
+        pushes = [last]
+        top = [last]
+        pair_ok_scan = True
+    else:
+        pair_ok_scan = False
     pair_id = item["pats"][1]["id"] if item.get("p") == "tuple" and len(item["pats"]) == 2 and item["pats"][1]["p"] == "bind" else None
     arg = T.peel(pushes[0]["args"][0]) if len(pushes) == 1 else {}
-    if len(pushes) != 1 or not any(st is pushes[0] for st in top) or pair_id is None or arg.get("k") != "tuple" or len(arg["es"]) != 2 \
-            or T.local_of(T.peel_ref(arg["es"][1])) != pair_id:
+    if not pair_ok_scan and (len(pushes) != 1 or not any(st is pushes[0] for st in top) or pair_id is None or arg.get("k") != "tuple" or len(arg["es"]) != 2
+                             or T.local_of(T.peel_ref(arg["es"][1])) != pair_id):
         return False, "get_removed_pos does not push exactly one (position, *pair index) per marker"
     # format indexes the same list it iterates
     f = P.fn("code::formatter::format")
@@ -237,7 +256,7 @@ def mr_cursor_shape(ctx):
             return False, "ranges is reassigned"
     # the Option cursor: initial value Some(ranges.len() - 1); inner cursor only decremented
     lets = [s for s in T.nodes(b["tree"], "let") if s["pat"]["p"] == "bind" and s["pat"]["name"] == "cursor"]
-    if not lets or T.render(lets[0]["init"]) != "std::prelude::v1::Some((ranges.len() - 1))":
+    if not lets or T.render(lets[0]["init"]) not in ("std::prelude::v1::Some((ranges.len() - 1))", "ranges.len().checked_sub(1)"):
         return False, "cursor is not initialised to Some(ranges.len() - 1)"
     ops = [n for n in T.nodes(b["tree"], "assign_op")]
     if [T.render(o) for o in ops] != ["cursor -= 1"]:
@@ -276,6 +295,11 @@ def _marker_traversal(b):
     folds = [n for n in T.nodes(b["tree"], "mcall") if n["name"] == "fold" and T.render(n["recv"]) == "markers.iter()"]
     fors = [n for n in T.nodes(b["tree"], "for") if T.render(T.peel_ref(n["iter"])) in ("markers", "markers.iter()")]
     others = [n for n in T.nodes(b["tree"], "mcall") if n["name"] in ("iter", "into_iter") and T.render(n["recv"]) == "markers"]
+    scans = [n for n in T.nodes(b["tree"], "mcall") if n["name"] == "scan" and T.render(n["recv"]) == "markers.iter()" and len(n["args"]) == 2]
+    if scans and not folds and not fors and len(others) <= 1 and len(scans) == 1:
+        clo = T.peel(scans[0]["args"][1])
+        if clo.get("k") == "closure" and len(clo["params"]) == 2 and clo["params"][0]["pat"].get("p") == "bind":
+            return {"form": "scan", "body": clo["body"], "item": clo["params"][1]["pat"], "seeds": {clo["params"][0]["pat"]["id"]: scans[0]["args"][0]}}, None
     if len(folds) + len(fors) != 1 or len(others) > 1:
         return None, "get_removed_pos does not traverse all markers once"
     if folds:
@@ -309,7 +333,7 @@ def grp_removed_len(ctx):
     if len(mods) != 1 or mods[0]["k"] != "assign_op" or not mods[0]["op"].startswith("+"):
         return False, "the running total is updated by %s" % [T.render(n) for n in mods]
     upd = mods[0]
-    acc = T.local_of(upd["l"])
+    acc = T.local_of(T.peel_ref(upd["l"]))
     r = T.peel(upd["r"])
     okr = (r.get("k") == "binary" and r["op"] == "-" and T.peel(r["l"]).get("k") == "field" and T.peel(r["r"]).get("k") == "field"
            and T.peel(r["l"])["name"] == "end" and T.peel(r["r"])["name"] == "start"
@@ -320,12 +344,14 @@ def grp_removed_len(ctx):
         return False, "the running total does not start at the literal 0"
     # order: the position is pushed before the total is updated, both unconditionally in the traversal body
     top = _top_stmts(tr["body"])
-    pi = [k for k, st in enumerate(top) if st.get("k") == "mcall" and st["name"] == "push"]
+    # the statement that computes the position (marker.start - total): the push, or in the scan form the `let` / the emitted value
+    pi = [k for k, st in enumerate(top) if any(n.get("k") == "binary" and n["op"] == "-" and T.local_of(T.peel_ref(n["r"])) == acc for n in T.nodes(st))]
     ui = [k for k, st in enumerate(top) if st is upd]
     if len(pi) != 1 or len(ui) != 1 or pi[0] > ui[0]:
         return False, "push/update order changed (or one of them is conditional)"
-    # the pushed position subtracts the running total
-    subs = [n for n in T.nodes(top[pi[0]], "binary") if n["op"] == "-" and T.local_of(n["r"]) == acc]
+    if tr["form"] != "scan" and not (top[pi[0]].get("k") == "mcall" and top[pi[0]]["name"] == "push"):
+        return False, "the position that subtracts the running total is not what is pushed"
+    subs = [n for n in T.nodes(top[pi[0]], "binary") if n["op"] == "-" and T.local_of(T.peel_ref(n["r"])) == acc]
     if len(subs) != 1:
         return False, "the pushed position does not subtract the running total"
     return True, "running total `%s`: seed 0, only `+= marker.end - marker.start` after the push (%s form)" % (T.render(upd["l"]), tr["form"])
